@@ -198,7 +198,7 @@ class SeqSuite(Suite):
 
     def gen_cases(self, rng, tier):
         fs = frame_sizes()
-        n = 700 if tier == "quick" else 24000
+        n = 1500 if tier == "quick" else 250000
         return [self.gen_case(rng, fs) for _ in range(n)]
 
     def nontrivial(self, case, out):
@@ -366,13 +366,16 @@ class SchedSuite(Suite):
     nontrivial_rule = "a growth (delete, then new) was interleaved with another thread's step, or two frames were live at once"
 
     def gen_cases(self, rng, tier):
-        n = 400 if tier == "quick" else 12000
+        n = 1000 if tier == "quick" else 140000
         cases = []
         ladder = [8, 16, 24, 40, 56, 64, 120, 128, 200, 300, 500]
         for _ in range(n):
             nt = rng.choice([2, 2, 2, 3, 3, 4])
-            lines = ["case 0 sched %d" % nt]
             nsteps = rng.randint(6, 45)
+            if tier != "quick" and rng.random() < 0.15:      # a share of long schedules with more threads
+                nt = rng.choice([3, 4, 5, 6])
+                nsteps = rng.randint(50, 120)
+            lines = ["case 0 sched %d" % nt]
             used = []
             begun = 0
             pending = [0] * nt          # guess: hooked operations the thread still has to perform
@@ -504,7 +507,7 @@ class StressSuite(Suite):
     nontrivial_rule = "every case (two or three real threads, real coroutines, one shared storage)"
 
     def gen_cases(self, rng, tier):
-        n, iters = (8, 1500) if tier == "quick" else (48, 20000)
+        n, iters = (10, 2000) if tier == "quick" else (160, 60000)
         return [{"id": 0, "lines": ["case 0 stress %d %d %d" % (rng.choice([2, 2, 3]), iters, rng.randint(1, 10 ** 6)), "end"]}
                 for _ in range(n)]
 
